@@ -53,6 +53,7 @@ def faithful (v : Value) (y : Scalar) : Bool :=
   | .float _ => false
   | .null => false
   | .coll => false
+  | .time => false
 
 /-- the results of a sequence of loads in one process -/
 def runHistory (h : List (Val × Val × Env)) : List Val := h.map fun x => load x.1 x.2.1 x.2.2
